@@ -20,7 +20,23 @@ def run(ctx, rep):
         "bound for every map and tick; the numeric constant follows from the standard IEEE model and is not measured.")
     rep.trusted += ["IEEE-754 double arithmetic with correct rounding", "timedelta(seconds=float) rounds half-even to microseconds; "
                     "timedelta addition is exact"]
+    exact_time_premises(ctx, rep)
+    rch = rep.rule("chain", "file -> lines (read().splitlines(), utf-8-sig) -> framing -> section route -> dispatcher -> builders: every link "
+                            "hands the lines on unchanged", floor=10)
+    from .chain import check_chain
+    check_chain(ctx, rch, "all", strict=False)
+
+
+def exact_time_premises(ctx, rep, prefix=""):
+    """The premises under which a stored or queried time is the exact tempo-map time of its tick (the argument of C01).  Shared
+    with the properties that state an *exact* time themselves: C03 (a note's end timestamp) and C16 (a tick bound)."""
     T = Timing(ctx)
+    _rule = rep.rule
+
+    class _R:
+        def rule(self, id, text, floor=0):
+            return _rule(prefix + id, text, floor=floor)
+    rep = _R()
     r1 = rep.rule("P1.formula", "sec = 60*ticks/(bpm*resolution), IEEE * and / only, <= 8 roundings", floor=1)
     T.check_sec_formula(r1)
     r2 = rep.rule("P2.conversion", "float -> timestamp only via timedelta(seconds=sec(...))", floor=3)
@@ -56,7 +72,4 @@ def run(ctx, rep):
                                        "the [Song] Resolution line (converter int, digits-only capture)", floor=3)
     from .C15 import check_resolution_field
     check_resolution_field(ctx, rrf)
-    rch = rep.rule("chain", "file -> lines (read().splitlines(), utf-8-sig) -> framing -> section route -> dispatcher -> builders: every link "
-                            "hands the lines on unchanged", floor=10)
-    from .chain import check_chain
-    check_chain(ctx, rch, "all", strict=False)
+    return T
